@@ -7,3 +7,4 @@ CONSTANTS Half = 6
           MaxOff = 2
 INVARIANT SpecSane
 INVARIANT GapSane
+CHECK_DEADLOCK FALSE
